@@ -1,6 +1,6 @@
 (* C14 - A message is held by at most one consumer at a time: the Redis client (one client, one call at a time) over the server model RedisSrv.v.
    Statements only; every proof is `exact <lemma>`. *)
-From Repid Require Import Base Sched RedisSrv RedisBroker RedisProofs.
+From Repid Require Import Base Sched RedisSrv RedisBroker RedisProofs RedisRun.
 
 (* NOT exclusive under interleaving (recorded finding redis_double_delivery_two_consumers): two consumers read the same
    window before either removes the name: both transactions go through (the reply of LREM is not inspected) and both
@@ -15,4 +15,10 @@ Theorem C14_redis_double_delivery_refuted :
   snd (exec s3 (HGet (mkHK 1 5 1) F_PAYLOAD)) = [1; 11].
 Proof. exact redis_double_delivery_refuted. Qed.
 
+(* one client, any sequential history: a name is never in two places, and what a take hands out is marked as being processed
+   exactly once - so it is in no list or sorted set from which a later take could hand it out again *)
+Theorem C14_redis_sequential_one_place : forall e h, wb_rhist e srv0 h -> forall n, occ n (run_rops e srv0 h) <= 1.
+Proof. exact redis_no_duplicates_from_empty. Qed.
+
 Print Assumptions C14_redis_double_delivery_refuted.
+Print Assumptions C14_redis_sequential_one_place.
